@@ -15,6 +15,7 @@ import (
 	"github.com/platinummonkey/go-concurrency-limits/core"
 	clgrpc "github.com/platinummonkey/go-concurrency-limits/grpc"
 	"github.com/platinummonkey/go-concurrency-limits/limit"
+	"github.com/platinummonkey/go-concurrency-limits/limit/functions"
 	"github.com/platinummonkey/go-concurrency-limits/limiter"
 	"github.com/platinummonkey/go-concurrency-limits/measurements"
 	ddreg "github.com/platinummonkey/go-concurrency-limits/metric_registry/datadog"
@@ -100,9 +101,15 @@ func runC17(r *Run) {
 	var cleanup func()
 	switch group {
 	case 0: // limits
-		which := t.Intn(9, "limit")
-		var l core.Limit
+		which := t.Intn(10, "limit")
+		var l, l2 core.Limit
 		switch which {
+		case 9:
+			// two limits configured with the same queue-size function value (a package-level default in an
+			// application), at estimates beyond the functions' pre-computed table
+			qf := functions.SqrtRootFunction(4)
+			l = limit.NewGradientLimitWithRegistry("gradient-a", 1000, 1, 8000, 0.5, qf, 2.0, 0, nopLogger{}, qr)
+			l2 = limit.NewGradientLimitWithRegistry("gradient-b", 1200, 1, 8000, 0.5, qf, 2.0, 0, nopLogger{}, qr)
 		case 0:
 			l = limit.NewAIMDLimit("aimd", 10, 0.9, 1, qr)
 		case 1:
@@ -127,6 +134,13 @@ func runC17(r *Run) {
 		ops = []c17op{
 			{"OnSample", true, func(tk *Task, x int) {
 				l.OnSample(int64(x)*1e9, int64(1+x%7)*1e6, 5+x%20, x%5 == 0)
+			}},
+			{"OnSample-second-limit", true, func(tk *Task, x int) {
+				if l2 != nil {
+					l2.OnSample(int64(x)*1e9, int64(1+x%7)*1e6, 700+x%900, false)
+				} else {
+					l.OnSample(int64(x)*1e9, int64(1+x%7)*1e6, 700+x%900, false)
+				}
 			}},
 			{"EstimatedLimit", false, func(tk *Task, x int) { _ = l.EstimatedLimit() }},
 			{"String", false, func(tk *Task, x int) {
@@ -189,6 +203,8 @@ func runC17(r *Run) {
 			pa := strategy.NewLookupPartitionWithMetricRegistry("a", 0.5, 1, qr)
 			pb := strategy.NewLookupPartitionWithMetricRegistry("b", 0.25, 1, qr)
 			s, _ := strategy.NewLookupPartitionStrategyWithMetricRegistry(map[string]*strategy.LookupPartition{"a": pa, "b": pb}, nil, 3, qr)
+			// a second strategy (another listener port of the same service) that shares the tier object pa
+			s2, _ := strategy.NewLookupPartitionStrategyWithMetricRegistry(map[string]*strategy.LookupPartition{"a": pa}, nil, 2, qr)
 			desc = "strategy lookup-partition"
 			ctxs := []context.Context{
 				context.WithValue(bg, matchers.LookupPartitionContextKey, "a"),
@@ -198,6 +214,11 @@ func runC17(r *Run) {
 			ops = []c17op{
 				{"TryAcquire+Release", true, func(tk *Task, x int) {
 					if tok, ok := s.TryAcquire(ctxs[x%3]); ok {
+						tok.Release()
+					}
+				}},
+				{"TryAcquire+Release-second-strategy", true, func(tk *Task, x int) {
+					if tok, ok := s2.TryAcquire(ctxs[0]); ok {
 						tok.Release()
 					}
 				}},
@@ -404,8 +425,8 @@ func runC17(r *Run) {
 		}
 		// registration tags as a caller builds them: a slice with room to grow, handed over with tags...; samples
 		// carry tags of their own now and then
-		regTags := make([]string, 1, 4)
-		regTags[0] = "env:sim"
+		regTags := make([]string, 2, 4)
+		regTags[0], regTags[1] = "env:sim", "az:b"
 		sampleTags := func(x int) []string {
 			if x%2 == 0 {
 				return nil
